@@ -1434,9 +1434,12 @@ func (r *Raft) InstallSnapshot(
 
 	r.lastContact = time.Now()
 
-	// The received snapshot does not contain anything new.
+	// The received snapshot does not contain anything new. Acknowledge the chunk so that
+	// the leader completes the transfer and moves on to the entries after the snapshot
+	// instead of sending the snapshot again.
 	if r.lastIncludedIndex >= request.LastIncludedIndex ||
 		r.lastApplied >= request.LastIncludedIndex {
+		response.BytesWritten = request.Offset + int64(len(request.Bytes))
 		return nil
 	}
 
